@@ -259,6 +259,8 @@ func c20World(t *testing.T, r *simcore.Run) any {
 		fetcher *ntske.Fetcher
 		measure func(timeout time.Duration) error
 		reqInfo func(d *simnet.Datagram) (netip.AddrPort, []byte, bool)
+		// datagrams of the client that are a bare NTP header
+		plainReqs int
 		svcPort int
 	)
 	prov := ntske.NewProvider()
@@ -293,6 +295,9 @@ func c20World(t *testing.T, r *simcore.Run) any {
 		}
 		reqInfo = func(d *simnet.Datagram) (netip.AddrPort, []byte, bool) {
 			p := parseSCION(d.Payload)
+			if p.ok && p.isUDP && len(p.pld) == 48 {
+				plainReqs++
+			}
 			if !p.ok || !p.isUDP || len(p.pld) <= 48 {
 				return netip.AddrPort{}, nil, false
 			}
@@ -318,6 +323,9 @@ func c20World(t *testing.T, r *simcore.Run) any {
 			return err
 		}
 		reqInfo = func(d *simnet.Datagram) (netip.AddrPort, []byte, bool) {
+			if len(d.Payload) == 48 {
+				plainReqs++
+			}
 			return netip.AddrPortFrom(d.Dst.Addr().Unmap(), d.Dst.Port()), d.Payload, len(d.Payload) > 48
 		}
 	}
@@ -476,12 +484,18 @@ func c20World(t *testing.T, r *simcore.Run) any {
 			if r.Sleep(fmt.Sprintf("gap:%d", i), cliNode, time.Duration(tp.Range(int64(time.Millisecond), int64(2*time.Second), "gap"))).Killed {
 				return
 			}
-			dials0, reqs0 := len(conns), len(reqs)
+			dials0, reqs0, plain0 := len(conns), len(reqs), plainReqs
 			poolBefore := fetcher.VerifPoolLen()
 			merr := measure(800 * time.Millisecond)
 			dials, nreq := len(conns)-dials0, len(reqs)-reqs0
 			data := fetcher.VerifData()
 			line := fmt.Sprintf("attempt %d: pool %d, dials %d, NTS requests %d, err=%v", i, poolBefore, dials, nreq, merr != nil)
+			if plainReqs != plain0 {
+				// a client configured for NTS sends requests with NTS fields to the server an exchange
+				// named, or none: a bare 48-byte request goes to a server no exchange has named
+				r.Fail("C20", "request/without-nts", "%s: the client sent %d request(s) without NTS fields", line, plainReqs-plain0)
+				return
+			}
 			if dials > 1 {
 				r.Fail("C20", "exchange/repeated", "%s: more than one key exchange in one attempt", line)
 				return
